@@ -1,5 +1,6 @@
 // transparency.go: C15 — remote Kill / Watch / Unwatch / Ping / Ask / PipeTo between three real systems (each behind
-// its own re-chunking proxy).  Implementation monitors only.
+// its own re-chunking proxy), then the same operations through alias addresses of the target system (alias.go).
+// Implementation monitors only.
 package main
 
 import (
@@ -174,6 +175,10 @@ func (h *H) runTransparency() {
 		h.unwatchRound(A, B, C, i, mode)
 		h.pingRound(A, B, C, i, mode)
 		h.pipeRound(A, B, C, i, mode)
+	}
+	// last (a forwarding loop, if there is one, keeps the target system busy until it is stopped): alias.go
+	if !h.abort {
+		h.aliasRounds(A, B, C)
 	}
 }
 
